@@ -75,9 +75,10 @@ def check_function(repo, finfo, res):
                     if not seen:
                         continue
                     used = _names_load(st)
-                    if isinstance(st, ast.Assert) and used & status:
-                        checked = True
-                        continue
+                    if isinstance(st, ast.Assert):
+                        if used & status:
+                            checked = True
+                        continue        # an assertion inspects, it does not consume the factor
                     if isinstance(st, ast.Assign) and used & status and not (used & factors):
                         for t in st.targets:
                             if dotted(t):
